@@ -12,7 +12,7 @@ import itertools, json
 import numpy as np
 from .. import core, iso
 
-KINDS = ('rankpixel',)
+KINDS = ('rankpixel', 'daubcode')
 REAL_KIND = 'convreal'
 
 
@@ -37,17 +37,50 @@ def py_rankpixel(n2, rank, const, retr):
     return acc, True, dict(cnt=str(n), currank=str(currank), nthok=str(int(0 <= currank <= n)), fresh=str(int(currank < n)))
 
 
+DAUB_LEN = None
+
+
+def _daub_lengths():
+    """the lengths of D2 … D20 as written in the CURRENT _convolve.cpp (read from the source text, not from the Lean table)"""
+    global DAUB_LEN
+    if DAUB_LEN is None:
+        import re
+        src = (core.REPO / 'mahotas' / '_convolve.cpp').read_text()
+        DAUB_LEN = []
+        for k in range(2, 21, 2):
+            m = re.search(r'const float D%d\[\] = \{(.*?)\};' % k, src, re.S)
+            if not m:
+                raise core.Infra(f'D{k} not found in _convolve.cpp')
+            DAUB_LEN.append(len([x for x in m.group(1).split(',') if x.strip()]))
+    return DAUB_LEN
+
+
+def py_daubcode(code):
+    """dcoeffs(code): switch 0..9 -> D2..D20, else NULL; ncoeffs = 2*(code+1); reads coeffs[j], j < ncoeffs"""
+    L = _daub_lengths()
+    if not (0 <= code <= 9):
+        return [], True, dict(null='1')
+    return [(j, L[code]) for j in range(2 * (code + 1))], True, dict(null='0')
+
+
 def line_for(q):
+    if 'code' in q:
+        return f"c10 kind=daubcode code={q['code']}"
     return f"c10 kind=rankpixel n2={q['n2']} rank={q['rank']} const={q['const']} retr={_csv(q['retr'])}"
 
 
 def line_and_direct(w, q):
+    if w == 'daubcode':
+        return (line_for(q),) + py_daubcode(q['code'])
     return (line_for(q),) + py_rankpixel(q['n2'], q['rank'], q['const'], q['retr'])
 
 
 def model_cases(rng, n):
     out, R = [], rng.randint
     for _ in range(n):
+        if rng.random() < 0.12:
+            out.append(dict(kind='model2', which='daubcode', p=dict(code=rng.choice([R(0, 9), R(-3, 13)])), domain=True))
+            continue
         n2 = R(1, 27)
         p = rng.choice([0.0, 0.3, 0.8, 1.0])
         q = dict(n2=n2, rank=R(0, n2 - 1), const=rng.choice([0, 0, 1]), retr=[int(rng.random() < p) for _ in range(n2)])
